@@ -6,6 +6,8 @@ import VpnCloud.Model.Rotation
   `bodyOf` (ideal AEAD).  Rotation reuses `Rot.process` / `Rot.cycle` (the functions `rotation_sync`
   is proved about); ephemeral rotation keys are numbered by the big-endian value of their public
   key bytes, fresh ones are observed through a read-only hook and passed in `RotRand`.
+  The symbolic layer forgets the byte length of a peer's key, so the panic of `derive_key` on a key that
+  is not an X25519 public key (length â‰  32) is decided here, on the bytes (`derivePanics`, `rotatePanics`).
 -/
 namespace VpnCloud
 
@@ -80,7 +82,34 @@ def installKey (pc : PeerCrypto) (key : Rot.Key) (id : Nat) (use : Bool) (starts
   | some c => { pc with core := some (c.rotateKey (keyRefOf pc.master key) id use (starts.getD (id % 4) 0)) }
   | none => pc
 
-/-- `handle_rotate_message` -/
+/-- length of an X25519 public key: ring's `agree_ephemeral` returns `Err` for a peer key of any other length -/
+def ROT_KEY_LEN : Nat := 32
+
+/-- The two `derive_key(..).unwrap()` sites of `RotationState::process_message` (`derive_key` is
+    `agree_ephemeral(private_key, &public_key, ..).unwrap()`), in the order of the Rust: messages with
+    `id <= self.message_id` return early and derive nothing; then `derive_key(private_key, msg.propose)` panics if the
+    proposed key does not have 32 bytes; `derive_key(private_key, peer_key)` is reached only if `msg.confirm` is present
+    AND `self.proposed` is some, and panics if the confirmed key does not have 32 bytes.
+    (Not modelled: the few 32-byte low-order points whose shared secret is all zero, which ring also rejects.) -/
+def derivePanics (sd : Rot.Side) (bm : RotMsg) : Bool :=
+  if bm.id â‰¤ sd.id then false
+  else if bm.propose.length â‰  ROT_KEY_LEN then true
+  else match bm.confirm, sd.proposed with
+    | some c, some _ => decide (c.length â‰  ROT_KEY_LEN)
+    | _, _ => false
+
+/-- does `handle_rotate_message` reach a panicking `derive_key`?  Same guards, in the same order, as `handleRotate`:
+    unencrypted sessions return before parsing, a missing rotation state and a short message are errors. -/
+def rotatePanics (pc : PeerCrypto) (data : Bytes) : Bool :=
+  if pc.unencrypted then false
+  else match pc.rot with
+    | none => false
+    | some sd =>
+      match readRotMsg data with
+      | none => false
+      | some bm => derivePanics sd bm
+
+/-- `handle_rotate_message`: the outcome when no `derive_key` panics (`rotatePanics` is checked first by `handleMessage`) -/
 def handleRotate (pc : PeerCrypto) (data : Bytes) (rr : RotRand) : PeerCrypto Ã— Except InitErr Unit :=
   if pc.unencrypted then (pc, .ok ())
   else match pc.rot with
@@ -162,7 +191,9 @@ def handleMessage (env : CryptoEnv) (bodyOf : Init.BodyOf) (payloadOk : Bytes â†
         | ty :: body =>
           if ty = Generated.MESSAGE_TYPE_ROTATION then
             -- handle_rotate_message(buffer.buffer()): sees the body and whatever follows in the buffer
-            match handleRotate pc1 (body ++ (if pc1.unencrypted then tail else [])) rr with
+            -- `derive_key(..).unwrap()` in `process_message`: a proposed / confirmed key that is not 32 bytes long
+            if rotatePanics pc1 (body ++ (if pc1.unencrypted then tail else [])) then .panic
+            else match handleRotate pc1 (body ++ (if pc1.unencrypted then tail else [])) rr with
             | (pc2, .ok ()) => .ok pc2 [] .none []
             | (pc2, .error e) => .err pc2 e
           else .ok pc1 [] (.message ty body) []
